@@ -174,19 +174,17 @@ class Env:
     # float operations (values: Fraction constants or z3 Real-sorted terms)
     def fadd(self, a, b):
         if self.float_mode == "uf":
-            a, b = sorted((rz(a), rz(b)), key=lambda t: t.get_id())
-            return sym._fadd(a, b)
+            return sym.uf_add(rz(a), rz(b))
         return radd(a, b)
 
     def fsub(self, a, b):
         if self.float_mode == "uf":
-            return sym._fsub(rz(a), rz(b))
+            return sym.uf_sub(rz(a), rz(b))
         return rsub(a, b)
 
     def fmul(self, a, b):
         if self.float_mode == "uf":
-            a, b = sorted((rz(a), rz(b)), key=lambda t: t.get_id())
-            return sym._fmul(a, b)
+            return sym.uf_mul(rz(a), rz(b))
         return rmul(a, b)
 
     def itof(self, x):
